@@ -5,6 +5,7 @@
 # 2. runs the demo with the patch (must fail), reverts, runs it again (must pass)
 WT="$1"; PATCH="$2"; DEMO="$3"; shift 3
 cd "$WT" || exit 2
+export CARGO_TARGET_DIR="${CONFIRM_TARGET_DIR:-$WT/target}"
 git checkout -q -- src || exit 2
 git apply "$PATCH" || { echo "CONFIRM: patch does not apply"; exit 2; }
 cargo build --offline --features verif >/dev/null 2>&1 && echo "CONFIRM build(verif)=ok" || echo "CONFIRM build(verif)=FAILED"
